@@ -350,18 +350,27 @@ class Footprints:
     rd, wr, _ = top.get_all_upblk_metadata()
     s.ffs = set(top.get_all_update_ff())
     allb = set(top._dag.final_upblks)
-    key = lambda b: (b.__name__, repr(top._dag.genblk_writes.get(b, '')), repr(top.get_update_block_host_component(b)) if b not in top._dag.genblks else '')
+    # blocks that call blocking methods are replaced by greenlet wrappers; metadata stays keyed by the original
+    s.orig = {v: k for k, v in getattr(top._dag, 'blk_greenlet_mapping', {}).items()}
+    og = lambda b: s.orig.get(b, b)
+    def host(b):
+      try: return repr(top.get_update_block_host_component(og(b)))
+      except Exception: return ''
+    key = lambda b: (b.__name__, repr(top._dag.genblk_writes.get(b, '')), host(b) if b not in top._dag.genblks else '')
     s.comb = sorted(allb - s.ffs, key=key)
     s.ff = sorted(s.ffs, key=key)
     s.reads, s.writes = {}, {}
     for b in allb:
-      r = rd.get(b) if b in rd else top._dag.genblk_reads.get(b, [])
-      w = wr.get(b) if b in wr else top._dag.genblk_writes.get(b, [])
+      r = rd.get(og(b)) if og(b) in rd else top._dag.genblk_reads.get(b, [])
+      w = wr.get(og(b)) if og(b) in wr else top._dag.genblk_writes.get(b, [])
       s.reads[b] = sorted({interval(x, s.roots) for x in (r or []) if x.is_signal()})
       s.writes[b] = sorted({interval(x, s.roots) for x in (w or []) if x.is_signal()})
     s.cid = {b: i for i, b in enumerate(s.comb)}
     U_U = top._dsl.all_U_U_constraints
-    s.expl = sorted({(s.cid[a], s.cid[b]) for (a, b) in top._dag.all_constraints if (a, b) in U_U and a in s.cid and b in s.cid and a is not b})
+    wrap = {v: k for k, v in s.orig.items()}       # original -> wrapper
+    wp = lambda b: wrap.get(b, b)
+    # explicit constraints are taken from the DSL-level set (independent of what later passes did with it)
+    s.expl = sorted({(s.cid[wp(a)], s.cid[wp(b)]) for (a, b) in U_U if wp(a) in s.cid and wp(b) in s.cid and a is not b})
     s.edges = sorted({(s.cid[a], s.cid[b]) for (a, b) in top._dag.all_constraints if a in s.cid and b in s.cid})
 
   def fp_term(s, ivs):
@@ -381,21 +390,24 @@ class OrderTracer:
   """records which update blocks / net blocks run, in order, while fn() executes"""
   def __init__(s, top, blocks):
     s.keys = {}
+    bycode = {}
     for i, b in enumerate(blocks):
       host = None
       if b not in top._dag.genblks:
         try: host = top.get_update_block_host_component(b)
         except Exception: host = None
       s.keys[(b.__code__, id(host) if host is not None else None)] = i
-    s.codes = {k[0] for k in s.keys}
+      bycode.setdefault(b.__code__, []).append(i)
+    s.unique = {c: l[0] for c, l in bycode.items() if len(l) == 1}
+    s.codes = set(bycode)
     s.order = []
   def _prof(s, frame, event, arg):
     if event == 'call' and frame.f_code in s.codes:
-      k = (frame.f_code, None)
-      if k not in s.keys:
+      i = s.unique.get(frame.f_code)
+      if i is None:
+        # several instances of one class share the code object: tell them apart by the captured component
         h = frame.f_locals.get('s')
-        k = (frame.f_code, id(h))
-      i = s.keys.get(k)
+        i = s.keys.get((frame.f_code, id(h)))
       if i is not None: s.order.append(i)
   def run(s, fn):
     s.order = []
@@ -463,3 +475,48 @@ def first_diff(a, b):
       ks = [k for k in x if x[k] != y.get(k)]
       return i, ks[:6], {k: (x[k], y.get(k)) for k in ks[:6]}
   return None
+
+
+def static_order(top, fp):
+  """the schedule list itself, when every entry is a known block (no SCC wrapper)"""
+  out = []
+  for b in top._sched.update_schedule:
+    if b not in fp.cid: return None
+    out.append(fp.cid[b])
+  return out
+
+def dynamic_writes(top, fp, rng, trials=3):
+  """run every combinational block alone on randomised states and record which bits it REALLY changes
+  (independent of pymtl3's AST analysis). Returns {block: set of (root id, bit)} restricted to bits that are
+  neither declared as written nor aliased (same storage) with a declared-written signal."""
+  leaves = live_leaves(top)
+  st = save_state(top)
+  alias = {}
+  for q in fp.roots:
+    obj, i, is_list, _ = top._sim.signal_object_mapping[q]
+    v = obj[i] if is_list else getattr(obj, i)
+    alias.setdefault(id(v), set()).add(fp.roots[q])
+  alias_of = {rid: cl for cl in alias.values() for rid in cl}
+  extra = {}
+  for b in fp.comb:
+    if b in top._dag.genblks: continue
+    for t in range(trials):
+      for x in leaves:
+        x._uint = rng.getrandbits(x.nbits)
+      before = snapshot(top)
+      try: b()
+      except Exception: continue
+      after = snapshot(top)
+      for q, rid in fp.roots.items():
+        d = before[repr(q)] ^ after[repr(q)]
+        if not d: continue
+        allowed = 0
+        for (rr, lo, hi) in fp.writes[b]:
+          if rr in alias_of[rid]: allowed |= (1 << hi) - (1 << lo)
+        d &= ~allowed
+        k = 0
+        while d:
+          if d & 1: extra.setdefault(b, set()).add((rid, k))
+          d >>= 1; k += 1
+  restore_state(st)
+  return extra
